@@ -6,6 +6,7 @@ import (
 	"io"
 	"os"
 	"path/filepath"
+	"runtime"
 	"sort"
 	"strings"
 	"sync"
@@ -389,8 +390,23 @@ func (c *childState) fire(t *Trigger, id string) {
 				// not a stop request Zeno can see (that window has its own moment, sigterm-now)
 				select {
 				case <-c.watched:
-				case <-time.After(10 * time.Second):
-					c.event("WatchSignals not reached within 10 s")
+				default:
+					if onMainGoroutine() {
+						// the point was hit by controler.Start() itself: the closest stop request that
+						// exists is the one delivered as soon as WatchSignals listens
+						c.event("point hit inside controler.Start(): SIGTERM as soon as WatchSignals listens")
+						go func() {
+							<-c.watched
+							c.event("SIGTERM")
+							syscall.Kill(os.Getpid(), syscall.SIGTERM)
+						}()
+						continue
+					}
+					select {
+					case <-c.watched:
+					case <-time.After(10 * time.Second):
+						c.event("WatchSignals not reached within 10 s")
+					}
 				}
 			}
 			c.event("SIGTERM")
@@ -406,6 +422,12 @@ func (c *childState) fire(t *Trigger, id string) {
 			select {}
 		}
 	}
+}
+
+func onMainGoroutine() bool {
+	var b [32]byte
+	n := runtime.Stack(b[:], false)
+	return strings.HasPrefix(string(b[:n]), "goroutine 1 [")
 }
 
 func (c *childState) holdUntilStopBegun() {
